@@ -274,6 +274,13 @@ func (k Keeper) HasEnoughFundToCreatePacket(ctx sdk.Context, tunnelID uint64) (b
 
 	// get the base packet fee and calculate total fee
 	basePacketFee := k.GetParams(ctx).BasePacketFee
+	// both fees are governance parameters of any size; report an overflow of their sum as an error
+	// instead of panicking in the end blocker.
+	for _, fee := range routeFee {
+		if _, err := basePacketFee.AmountOf(fee.Denom).SafeAdd(fee.Amount); err != nil {
+			return false, fmt.Errorf("total packet fee of tunnel %d: %w", tunnelID, err)
+		}
+	}
 	totalFee := basePacketFee.Add(routeFee...)
 
 	// compare the fee payer's balance with the total fee
